@@ -517,6 +517,29 @@ Fixpoint k15_node (n : node) : bool :=
   end.
 Definition k15_list (l : list node) : bool := k15_l k15_node l.
 
+(* D27: `||` (two adjacent `|` delimiters: the column combinator, or `||` of a value grammar).
+   cssparser 0.34 has no token for it and its separator table splits the pair: `| |` *)
+Section K27.
+Variable rec : node -> bool.
+Fixpoint k27_l (l : list node) : bool :=
+  match l with
+  | [] => false
+  | n :: r =>
+      (match n with
+       | Leaf (TDelim c) _ =>
+           (c =? 124) && match r with Leaf (TDelim c2) _ :: _ => c2 =? 124 | _ => false end
+       | Leaf _ _ => false
+       | Block _ _ _ _ _ => rec n
+       end) || k27_l r
+  end.
+End K27.
+Fixpoint k27_node (n : node) : bool :=
+  match n with
+  | Leaf _ _ => false
+  | Block _ _ body _ _ => k27_l k27_node body
+  end.
+Definition k27_list (l : list node) : bool := k27_l k27_node l.
+
 (* D24: cssparser prints a dimension whose unit starts with e/E followed by a digit (or by
    `-` and a digit, already escaped by the serializer... only the digit case is open) so that
    it re-tokenises as a number in scientific notation *)
@@ -537,7 +560,7 @@ Fixpoint k24_node (n : node) : bool :=
 (* whole-sheet scan for the rule-level classes; returns the list of class ids that apply *)
 Definition K13 : N := 13.  Definition K14 : N := 14.  Definition K15 : N := 15.
 Definition K17 : N := 17.  Definition K23 : N := 23.  Definition K24 : N := 24.
-Definition K25 : N := 25.  Definition K26 : N := 26.
+Definition K25 : N := 25.  Definition K26 : N := 26.  Definition K27 : N := 27.
 
 Definition flag (b : bool) (k : N) : list N := if b then [k] else [].
 
@@ -599,12 +622,13 @@ Fixpoint known_rules (fuel : nat) (o : opts) (l : list node) : list N :=
       end
   end.
 
-(* class ids that apply to a sheet (without repetition): 15, 23, 24 are properties of the token
+(* class ids that apply to a sheet (without repetition): 15, 23, 24, 27 are properties of the token
    tree alone, the others depend on the rule structure *)
 Definition known (o : opts) (tree : list node) : list N :=
   nodup N.eq_dec
     (flag (k15_list tree) K15 ++ flag (k23_list false false tree None) K23
-     ++ flag (existsb k24_node tree) K24 ++ known_rules (S (nodes_size tree)) o tree).
+     ++ flag (existsb k24_node tree) K24 ++ flag (k27_list tree) K27
+     ++ known_rules (S (nodes_size tree)) o tree).
 
 Definition wf_tree (o : opts) (tree : list node) : bool :=
   wf_nodes true tree && so_complete (expected o tree).
